@@ -96,7 +96,7 @@ def main():
         while True:
             A = np.array([[rng.gauss(0, 1) for _ in range(dim)] for _ in range(dim)])
             S = amp * (A + A.T) / 2
-            if not admissible or np.linalg.eigvalsh(2 * S + np.eye(dim)).min() > 0.35:
+            if not admissible or not (np.linalg.eigvalsh(2 * S + np.eye(dim)).min() <= 0.35):
                 return S
 
     # ---------------- law level ----------------
@@ -128,20 +128,20 @@ def main():
                 dWfd = (vals[1][0] - vals[-1][0]) / (2 * h)
                 got1 = float(dW0 @ kelvin(dE))
                 sc = 1 + abs(got1)
-                if abs(dWfd - got1) > 2e-7 * sc:
+                if not (abs(dWfd - got1) <= 2e-7 * sc):
                     res.fail(f"stress is not the derivative of the energy law={name} dim={dim}", f"dW/de : dE = {got1} but the central difference of W along dE is {dWfd}", ident)
                 d2fd = (vals[1][1] - vals[-1][1]) / (2 * h)
                 got2 = d2W0 @ kelvin(dE)
-                if np.abs(d2fd - got2).max() > 2e-6 * (1 + np.abs(got2).max()):
+                if not (np.abs(d2fd - got2).max() <= 2e-6 * (1 + np.abs(got2).max())):
                     res.fail(f"tangent is not the derivative of the stress law={name} dim={dim}", f"d2W/de2 · dE differs from the central difference of dW/de by {np.abs(d2fd - got2).max():.2e}", ident)
-                if np.abs(d2W0 - d2W0.T).max() > 1e-9 * (1 + np.abs(d2W0).max()):
+                if not (np.abs(d2W0 - d2W0.T).max() <= 1e-9 * (1 + np.abs(d2W0).max())):
                     res.fail(f"tangent not symmetric law={name} dim={dim}", f"max |d2W - d2W^T| = {np.abs(d2W0 - d2W0.T).max():.2e}", ident)
                 # superposed rotation
                 Q = rodrigues((0, 0, 1) if dim == 2 else (1, 2, -1), 0.7 + rep)[:dim, :dim]
                 mq, uq = homogeneous_state(et, Q @ F0)
                 Wq, dWq, d2Wq = law_values(law, mq, uq)
                 res.case((name, dim, rep, "rotation"))
-                if abs(Wq - W0) > 1e-9 * (1 + abs(W0)) or np.abs(dWq - dW0).max() > 1e-8 * (1 + np.abs(dW0).max()):
+                if not (abs(Wq - W0) <= 1e-9 * (1 + abs(W0))) or not (np.abs(dWq - dW0).max() <= 1e-8 * (1 + np.abs(dW0).max())):
                     res.fail(f"energy not frame-indifferent law={name} dim={dim}", f"W(QF) - W(F) = {Wq - W0:.2e}, max |S(QF) - S(F)| = {np.abs(dWq - dW0).max():.2e}", ident)
                 # correspondence with the translated tables (3D, translated laws)
                 if params is not None and dim == 3:
@@ -156,7 +156,7 @@ def main():
                 mesh, u = homogeneous_state(et, np.eye(dim))
                 Wr, dWr, _ = law_values(law, mesh, u)
                 res.case((name, dim, "reference"))
-                if abs(Wr) > 1e-12 or np.abs(dWr).max() > 1e-10:
+                if not (abs(Wr) <= 1e-12) or not (np.abs(dWr).max() <= 1e-10):
                     res.fail(f"reference configuration not stress-free law={name} dim={dim}", f"W(I) = {Wr}, max |S(I)| = {np.abs(dWr).max():.2e}", dict(law=name, dim=dim))
             except Exception as ex:  # noqa: BLE001
                 res.fail(f"law raises at the reference law={name} dim={dim}", f"{type(ex).__name__}: {str(ex)[:150]}", dict(law=name, dim=dim))
@@ -192,7 +192,7 @@ def main():
             res.case((et, opname))
             res.count(f"operator:{opname}")
             err = np.abs(Kfd - K_e[e]).max() / (1 + np.abs(K_e[e]).max())
-            if err > tol:
+            if not (err <= tol):
                 res.fail(f"tangent is not the derivative of the residual op={opname}", f"max |K_e - dR_e/du| / |K_e| = {err:.2e} on {et}", dict(elemType=et, operator=opname, element=e))
 
         fd_check("SecondPiolaKirchhoffStressTensor", lambda uu: Operators.NonLinear.SecondPiolaKirchhoffStressTensor(law, HyperElasticState(g, uu, MatrixType.rigi)), u0)
@@ -221,9 +221,9 @@ def main():
             res.case((et, "KelvinVoigt residual = C v"))
             res.count("operator:KelvinVoigtDamping")
             gapCv = np.abs(np.einsum("eij,ej->ei", Cv_, ve_) - Rv_).max() / (1e-300 + np.abs(Rv_).max())
-            if gapCv > 1e-9:
+            if not (gapCv <= 1e-9):
                 res.fail("viscous residual is not C v op=KelvinVoigtDamping", f"max |R_e - C_e v_e| / |R_e| = {gapCv:.2e} on {et}", dict(elemType=et, operator="KelvinVoigtDamping"))
-            if np.abs(Cv_ - np.swapaxes(Cv_, 1, 2)).max() > 1e-10 * np.abs(Cv_).max():
+            if not (np.abs(Cv_ - np.swapaxes(Cv_, 1, 2)).max() <= 1e-10 * np.abs(Cv_).max()):
                 res.fail("damping matrix not symmetric op=KelvinVoigtDamping", f"max |C_e - C_e'| = {np.abs(Cv_ - np.swapaxes(Cv_, 1, 2)).max():.2e} on {et}", dict(elemType=et, operator="KelvinVoigtDamping"))
             fd_check("KelvinVoigtDamping", lambda uu: Operators.NonLinear.KelvinVoigtDamping(law, HyperElasticState(g, uu, MatrixType.rigi), v0)[:2], u0)
         except Exception as ex:  # noqa: BLE001
@@ -252,7 +252,7 @@ def main():
                 gap0_ = np.asarray(gap0_)
                 hc = 1e-7
                 for e in sorted({0, bndc.Ne // 2, bndc.Ne - 1}):
-                    if np.abs(gap0_[e]).min() < 1e-4:
+                    if not (np.abs(gap0_[e]).min() >= 1e-4):
                         continue   # a point on the obstacle surface: the force has a kink there
                     Kfd = np.zeros_like(Kc_[e])
                     for j, dof in enumerate(asm_c[e]):
@@ -261,7 +261,7 @@ def main():
                     res.case((et, str(bndc.elemType), e, "PenaltyContact"))
                     res.count("operator:PenaltyContact")
                     err = np.abs(Kfd - Kc_[e]).max() / (1 + np.abs(Kc_[e]).max())
-                    if err > 5e-6:
+                    if not (err <= 5e-6):
                         res.fail("tangent is not the derivative of the residual op=PenaltyContact", f"max |K_e + dR_e/du| = {err:.2e} on element {e} of the {bndc.elemType} boundary group of {et}", dict(elemType=et, operator="PenaltyContact"))
                         break
                 # the force: only penetrating points push, along the normal, and the total equals penalty * int <-g> dGamma n
@@ -269,7 +269,7 @@ def main():
                 tot = Rc_.reshape(bndc.Ne, -1, dim).sum((0, 1))
                 wantc = 50.0 * (wJc_ * np.where(gap0_ < 0, -gap0_, 0.0)).sum() * nrm_[:dim]
                 res.case((et, str(bndc.elemType), "PenaltyContact force"))
-                if np.abs(tot - wantc).max() > 1e-9 * (1e-300 + np.abs(wantc).max()):
+                if not (np.abs(tot - wantc).max() <= 1e-9 * (1e-300 + np.abs(wantc).max())):
                     res.fail("contact force is not penalty x penetration along the normal op=PenaltyContact", f"sum of R_e = {tot.tolist()}, penalty int <-g> n = {wantc.tolist()} on the {bndc.elemType} boundary group of {et}", dict(elemType=et, operator="PenaltyContact"))
         except Exception as ex:  # noqa: BLE001
             res.fail("operator raises op=PenaltyContact", f"{et}: {type(ex).__name__}: {str(ex)[:120]}", dict(elemType=et, operator="PenaltyContact"))
@@ -307,7 +307,7 @@ def main():
                         res.case((et, str(bnd.elemType), e, "FollowingPressure"))
                         res.count("operator:FollowingPressure")
                         err = np.abs(Kfd - K_e[e]).max() / (1 + np.abs(K_e[e]).max())
-                        if err > 5e-6:
+                        if not (err <= 5e-6):
                             res.fail("tangent is not the derivative of the residual op=FollowingPressure", f"max |K_e - dR_e/du| = {err:.2e} on element {e} of the {bnd.elemType} boundary group of {et}", identb)
                             break
                     # the force itself from the deformed positions of the element's own nodes: F_i = p sum_g w_g N_i (dx/dr x dx/ds)
@@ -320,7 +320,7 @@ def main():
                     Fref = 0.7 * np.einsum("p,pn,epc->enc", w_, N_, nrm).reshape(bnd.Ne, -1)
                     res.case((et, str(bnd.elemType), "FollowingPressure force"))
                     errF = np.abs(R_e - Fref).max() / (1e-300 + np.abs(Fref).max())
-                    if errF > 1e-9:
+                    if not (errF <= 1e-9):
                         res.fail("residual is not the follower force op=FollowingPressure", f"max |R_e - p int N (dx/dr x dx/ds)| / |F| = {errF:.2e} on the {bnd.elemType} boundary group of {et} (deformed positions of the element's own nodes)", identb)
             except Exception as ex:  # noqa: BLE001
                 res.fail("operator raises op=FollowingPressure", f"FollowingPressure on the boundary groups of {et}: {type(ex).__name__}: {str(ex)[:120]}", dict(elemType=et, operator="FollowingPressure"))
@@ -334,54 +334,135 @@ def main():
             nodes, weights = (np.array(a, float) for a in cc(npts))
             res.case(("clenshaw-curtis", npts))
             bad = []
-            if abs(weights.sum() - 1) > 1e-13:
+            if not (abs(weights.sum() - 1) <= 1e-13):
                 bad.append(f"weights sum to {weights.sum()}")
             # a rule with n points on Chebyshev extrema integrates polynomials of degree < n exactly on [0, 1]
             for deg in range(npts if npts > 1 else 2):
-                if abs(weights @ nodes ** deg - 1 / (deg + 1)) > 1e-12:
+                if not (abs(weights @ nodes ** deg - 1 / (deg + 1)) <= 1e-12):
                     bad.append(f"degree {deg}: {weights @ nodes ** deg} instead of {1 / (deg + 1)}")
                     break
             if bad:
                 res.fail(f"path quadrature rule nPoints={npts}", f"Clenshaw-Curtis rule with {npts} points on [0, 1]: " + "; ".join(bad), dict(nPoints=npts))
 
+    # ---------------- large meshes: the tangent of EVERY element is the derivative of its residual ----------------
+    # (the checks above look at one element of a few-element mesh; here a mesh of several thousand elements, a smooth random
+    #  displacement and one random direction du: K_e du_e against the central difference of R_e along du, on all the elements at once)
+    def smooth_u(coord, dim, amp):
+        X = coord[:, :dim] / coord[:, :dim].max(0)
+        u = np.zeros((coord.shape[0], dim))
+        for c in range(dim):
+            for _ in range(3):
+                k = np.array([rng.uniform(0.5, 3.0) for _ in range(dim)]) * np.pi
+                ph = np.array([rng.uniform(0, 2 * np.pi) for _ in range(dim)])
+                u[:, c] += amp * rng.gauss(0, 1) * np.prod(np.sin(X * k + ph), axis=1) * coord[:, c].max() / k[c]
+        return u.ravel()
+
+    big = [("QUAD4", 2), ("TRI3", 2), ("HEXA8", 3)] if not thorough else [("QUAD4", 2), ("TRI3", 2), ("QUAD8", 2), ("HEXA8", 3), ("PRISM6", 3)]
+    for et, dim in big:
+        try:
+            if dim == 2:
+                nx, ny = rng.randint(64, 100), rng.randint(66, 90)
+                mesh = M.mesh_2d(et, float(nx), float(ny), 1.0 if et in M.QUAD else 1.45)
+            else:
+                nx, ny, nz = rng.randint(17, 21), rng.randint(17, 20), rng.randint(15, 18)
+                mesh = M.mesh_3d(et, float(nx), float(ny), float(nz), 1.0, nz)
+        except Exception as ex:  # noqa: BLE001
+            res.fail(f"large mesh raises elemType={et}", f"{type(ex).__name__}: {str(ex)[:150]}", dict(elemType=et))
+            continue
+        g = mesh.groupElem
+        identL = dict(elemType=et, Ne=int(g.Ne), size=[nx, ny] if dim == 2 else [nx, ny, nz])
+        law = H_.MooneyRivlin(dim, 0.5, 0.3, 1.0) if dim == 2 else H_.NeoHookean(dim, 2.0)
+        unL = smooth_u(mesh.coord, dim, 0.05)
+        u1L = unL + smooth_u(mesh.coord, dim, 0.05)
+        vL = smooth_u(mesh.coord, dim, 0.1)
+        duL = np.array([rng.gauss(0, 1) for _ in range(mesh.Nn * dim)])
+        asmL = np.asarray(g.Get_assembly_e(dim))
+        stL = lambda uu, g=g: HyperElasticState(g, uu, MatrixType.rigi)  # noqa: E731
+        opsL = [("SecondPiolaKirchhoffStressTensor", 1.0, lambda uu: Operators.NonLinear.SecondPiolaKirchhoffStressTensor(law, stL(uu))),
+                ("GonzalezStressTensor", 0.5, lambda uu: Operators.NonLinear.GonzalezStressTensor(law, stL(unL), stL((unL + uu) / 2), stL(uu))),
+                ("TimeQuadratureStressTensor", 0.5, lambda uu: Operators.NonLinear.TimeQuadratureStressTensor(law, stL(unL), stL((unL + uu) / 2), stL(uu), 0.5, 3)[:2]),
+                ("KelvinVoigtDamping", 1.0, lambda uu: Operators.NonLinear.KelvinVoigtDamping(law, stL(uu), vL)[:2])]
+        for opname, coefL, fun in opsL:
+            identO = dict(identL, operator=opname)
+            try:
+                law.eta = 0.35 if opname == "KelvinVoigtDamping" else 0.0
+                hL = 1e-6
+                K_e = np.asarray(fun(u1L)[0])
+                dR = (np.asarray(fun(u1L + hL * duL)[1]) - np.asarray(fun(u1L - hL * duL)[1])).reshape(g.Ne, -1) / (2 * hL)
+                Kdu = coefL * np.einsum("eij,ej->ei", K_e, duL[asmL])
+            except Exception as ex:  # noqa: BLE001
+                res.fail(f"operator raises on a large mesh op={opname}", f"{et}, {g.Ne} elements: {type(ex).__name__}: {str(ex)[:150]}", identO)
+                continue
+            finally:
+                law.eta = 0.0
+            res.case((et, "large", opname))
+            res.count(f"operator-large:{opname}")
+            err_e = np.abs(Kdu - dR).max(axis=1) / np.abs(dR).max()
+            bad = ~(err_e <= 2e-6)
+            if bad.any():
+                res.fail(f"tangent is not the derivative of the residual on every element of a large mesh op={opname}",
+                         f"{int(bad.sum())} of {g.Ne} {et} elements (first: {int(np.argmax(bad))}) have |K_e du - dR_e/du . du| / max|dR/du . du| up to {np.nanmax(err_e):.2e}", identO)
+
     # ---------------- free motion: kinetic + stored energy under the midpoint scheme ----------------
+    # The energy balance is a property of the steps taken, not of what the user chooses to store: the same motion is run with every
+    # step saved, with one saved iteration every few steps (long runs) and without saving at all; each must conserve kinetic + stored
+    # energy, and all must follow the same trajectory.
+    def free_motion(stress, et, lawname, dt, npts, nSteps, saveEvery):
+        dim = M.dim_of(et)
+        mesh = M.mesh_2d(et, 2.0, 1.0, 1.0) if dim == 2 else M.mesh_3d(et, 2.0, 1.0, 1.0, 1.0, 1)
+        law = dict(NeoHookean=lambda: H_.NeoHookean(dim, 2.5), MooneyRivlin=lambda: H_.MooneyRivlin(dim, 1.5, 0.75, 4.0), SaintVenantKirchhoff=lambda: H_.SaintVenantKirchhoff(dim, 3.0, 2.0, 0.0))[lawname]()
+        s = Simulations.HyperElastic(mesh, law, relTol=1e-13, absTol=1e-12, incTol=1e-13, maxIter=40)
+        s.rho = 1.5
+        s.Solver_Set_Hyperbolic_Algorithm(dt, algo=AlgoType.midpoint)
+        s.Solver_Set_Stress(stress, nPoints=npts) if stress == "quadrature" else s.Solver_Set_Stress(stress)
+        X = mesh.coord
+        v0 = np.zeros((mesh.Nn, dim))
+        v0[:, 0] = 0.15 * np.sin(np.pi * X[:, 1]) + 0.1 * X[:, 0]
+        v0[:, 1] = -0.1 * X[:, 0] ** 2
+        s._Set_solutions(s.problemType, np.zeros(mesh.Nn * dim), v0.ravel(), np.zeros(mesh.Nn * dim))
+        Mm = None
+        energies = []
+        for k in range(1, nSteps + 1):
+            s.Solve()
+            if saveEvery and k % saveEvery == 0:
+                s.Save_Iter()
+            if Mm is None:
+                Mm = s.Get_K_C_M_F()[2]
+            v = np.asarray(s.speed)
+            energies.append(0.5 * float(v @ (Mm @ v)) + float(s._Calc_W()))
+        E0 = 0.5 * float(v0.ravel() @ (Mm @ v0.ravel()))
+        return np.array(energies), E0, np.array(s.displacement, dtype=float).copy()
+
     for stress in ("gonzalez", "quadrature"):
         for et, lawname in ((("QUAD4", "NeoHookean"), ("HEXA8", "MooneyRivlin")) if not thorough else (("QUAD4", "NeoHookean"), ("TRI6", "SaintVenantKirchhoff"), ("HEXA8", "MooneyRivlin"), ("TETRA4", "NeoHookean"))):
-            dim = M.dim_of(et)
-            mesh = M.mesh_2d(et, 2.0, 1.0, 1.0) if dim == 2 else M.mesh_3d(et, 2.0, 1.0, 1.0, 1.0, 1)
-            law = dict(NeoHookean=lambda: H_.NeoHookean(dim, 2.5), MooneyRivlin=lambda: H_.MooneyRivlin(dim, 1.5, 0.75, 4.0), SaintVenantKirchhoff=lambda: H_.SaintVenantKirchhoff(dim, 3.0, 2.0, 0.0))[lawname]()
             dt = rng.choice([0.05, 0.1, 0.2])
-            ident = dict(elemType=et, law=lawname, stress=stress, dt=dt)
-            try:
-                s = Simulations.HyperElastic(mesh, law, relTol=1e-13, absTol=1e-12, incTol=1e-13, maxIter=40)
-                s.rho = 1.5
-                s.Solver_Set_Hyperbolic_Algorithm(dt, algo=AlgoType.midpoint)
-                s.Solver_Set_Stress(stress, nPoints=rng.choice([8, 9, 10])) if stress == "quadrature" else s.Solver_Set_Stress(stress)
-                X = mesh.coord
-                v0 = np.zeros((mesh.Nn, dim))
-                v0[:, 0] = 0.15 * np.sin(np.pi * X[:, 1]) + 0.1 * X[:, 0]
-                v0[:, 1] = -0.1 * X[:, 0] ** 2
-                s._Set_solutions(s.problemType, np.zeros(mesh.Nn * dim), v0.ravel(), np.zeros(mesh.Nn * dim))
-                Mm = None
-                energies = []
-                for k in range(12 if not thorough else 40):
-                    s.Solve()
-                    s.Save_Iter()
-                    if Mm is None:
-                        Mm = s.Get_K_C_M_F()[2]
-                    v = np.asarray(s.speed)
-                    energies.append(0.5 * float(v @ (Mm @ v)) + float(s._Calc_W()))
-            except Exception as ex:  # noqa: BLE001
-                res.fail(f"free motion raises stress={stress}", f"{et}/{lawname}: {type(ex).__name__}: {str(ex)[:120]}", dict(elemType=et, law=lawname, stress=stress))
-                continue
-            res.case((stress, et, lawname))
-            res.count(f"free-motion:{stress}")
-            E = np.array(energies)
-            E0 = 0.5 * float(v0.ravel() @ (Mm @ v0.ravel()))
-            drift = np.abs(E - E0).max() / abs(E0)
+            npts = rng.choice([8, 9, 10])
+            nSteps = 12 if not thorough else 40
             tol = 1e-8 if stress == "gonzalez" else 1e-6
-            if not np.all(np.isfinite(E)) or drift > tol:
-                res.fail(f"energy not conserved stress={stress}", f"kinetic + stored energy drifts by {drift:.2e} (relative) over {len(E)} midpoint steps of size {dt} ({et}, {lawname})", ident)
+            uRef = None
+            for saveEvery in (1, rng.choice([2, 3, 5]), 0):
+                ident = dict(elemType=et, law=lawname, stress=stress, dt=dt)
+                cadence = ""
+                if saveEvery != 1:
+                    ident["saveEvery"] = saveEvery
+                    cadence = " when the steps are not all saved"
+                try:
+                    E, E0, uEnd = free_motion(stress, et, lawname, dt, npts, nSteps, saveEvery)
+                except Exception as ex:  # noqa: BLE001
+                    res.fail(f"free motion raises{cadence} stress={stress}", f"{et}/{lawname}: {type(ex).__name__}: {str(ex)[:120]}", ident)
+                    continue
+                res.case((stress, et, lawname, saveEvery))
+                res.count(f"free-motion:{stress}")
+                drift = np.abs(E - E0).max() / abs(E0)
+                how = "every step saved" if saveEvery == 1 else f"one saved iteration every {saveEvery} steps" if saveEvery else "no iteration saved"
+                if not np.all(np.isfinite(E)) or not (drift <= tol):
+                    res.fail(f"energy not conserved{cadence} stress={stress}", f"kinetic + stored energy drifts by {drift:.2e} (relative) over {len(E)} midpoint steps of size {dt} ({et}, {lawname}, {how})", ident)
+                if saveEvery == 1:
+                    uRef = uEnd
+                elif uRef is not None:
+                    gapU = np.abs(uEnd - uRef).max() / (1e-300 + np.abs(uRef).max())
+                    if not (gapU <= 1e-8):
+                        res.fail(f"trajectory depends on which steps are saved stress={stress}", f"displacement after {nSteps} midpoint steps of size {dt} differs by {gapU:.2e} (relative) between {how} and every step saved ({et}, {lawname})", ident)
 
     answers = driver.ask(lines)
     if answers is None:
@@ -399,12 +480,12 @@ def main():
                 res.disagree("law-tables", dict(ident, model=ans[:80]))
                 continue
             tol = 1e-9
-            if abs(Wm - W0) > tol * (1 + abs(W0)) or np.abs(dWm - dW0).max() > tol * (1 + np.abs(dW0).max()) or np.abs(d2Wm - d2W0).max() > tol * (1 + np.abs(d2W0).max()):
+            if not (abs(Wm - W0) <= tol * (1 + abs(W0))) or not (np.abs(dWm - dW0).max() <= tol * (1 + np.abs(dW0).max())) or not (np.abs(d2Wm - d2W0).max() <= tol * (1 + np.abs(d2W0).max())):
                 res.disagree("law-tables", dict(ident, dW=float(np.abs(dWm - dW0).max()), d2W=float(np.abs(d2Wm - d2W0).max()), W=abs(Wm - W0)))
     res.search_note = "stress = dW/de, tangent = d stress/de, operator tangents = d residual/du and energy conservation hold on the sampled states"
     res.write("five laws (NeoHookean, MooneyRivlin, SaintVenantKirchhoff, CiarletGeymonat, HolzapfelOgden with two fibre families) in 3D and plane strain at random homogeneous deformations (|E| ~ 0.15): "
               "central finite differences of W and dW/de, symmetry, superposed rotations, reference configuration; operators SecondPiolaKirchhoff / Gonzalez / TimeQuadrature / ActiveStress / FollowingPressure: tangent vs "
-              "central differences of the residual on random displaced meshes; free motion under the midpoint scheme with the gonzalez and quadrature stresses; distinct = distinct (law or operator, dimension, check)")
+              "central differences of the residual on random displaced meshes, and on every element of meshes of several thousand elements along one random direction; free motion under the midpoint scheme with the gonzalez and quadrature stresses, every step / some steps / no step saved; distinct = distinct (law or operator, dimension, check)")
 
 
 if __name__ == "__main__":
